@@ -562,7 +562,7 @@ func r075(c *Ctx, r *R) {
 			fld, _ := fieldOfAddrValue(ci.Common().Args[0])
 			if len(args) >= 1 && paramIndex(g, args[0]) == 2 && fld != nil && fld == trustSetField {
 				// must not be conditional
-				if len(guardsOf(ci.Block())) == 0 {
+				if onEveryPath(ci) {
 					ok = true
 				}
 			}
